@@ -54,7 +54,7 @@ def parse_result(line):
     d = {"raw": line}
     m = re.match(r"(OK|HANG|CRASH sig=\d+|EXIT code=-?\d+)", line)
     d["status"] = m.group(1) if m else "GARBLED"
-    for key in ("site", "n", "inj", "canary", "guard", "poison", "live", "tm", "un", "leaked", "sends", "res",
+    for key in ("site", "n", "inj", "canary", "guard", "poison", "live", "tm", "un", "leaked", "cs", "sends", "res",
                 "trace", "sites"):
         m = re.search(r" %s=(\S+)" % key, line)
         d[key] = m.group(1) if m else "?"
@@ -244,6 +244,69 @@ def match_known(run, scenario, kind, chains, detail=""):
     return run.match_known(sig)
 
 
+# the allocator entry points and the helpers that do nothing but allocate one object: a call of
+# any of them is an allocation site
+ALLOC_FUNCS = ("coap_malloc_type|coap_realloc_type|coap_new_string|coap_new_binary|coap_new_bin_const|"
+               "coap_new_str_const|coap_resize_binary|coap_pdu_init|coap_pdu_resize|coap_pdu_check_resize|"
+               "coap_new_node|coap_new_optlist|coap_pdu_duplicate_lkd|coap_new_pdu_lkd")
+REACHED = set()      # return addresses of allocation calls attempted while armed (base variant)
+
+
+def note_reached(ds, variant):
+    if variant != "base":
+        return
+    for d in ds:
+        if d.get("cs", "?") not in ("?", "-"):
+            REACHED.update(d["cs"].split(","))
+        for nt in parse_notice(d["site"]):
+            if nt["bt"] and nt["op"] != "U":
+                REACHED.add(nt["bt"][0])
+
+
+def allocation_sites(exe):
+    """every call of coap_malloc_type / coap_realloc_type in the library as linked into the
+    driver (whole archive): return address -> (function, file:line)"""
+    p = subprocess.run(["objdump", "-d", "--no-show-raw-insn", exe], stdout=subprocess.PIPE)
+    sites = {}
+    lines = p.stdout.decode("latin-1").split("\n")
+    for i, ln in enumerate(lines):
+        m = re.match(r"\s*([0-9a-f]+):\s+call\s+[0-9a-f]+ <(?:__wrap_)?(" + ALLOC_FUNCS + r")>", ln)
+        if not m:
+            continue
+        # the return address is the address of the next instruction
+        for nx in lines[i + 1:i + 4]:
+            m2 = re.match(r"\s*([0-9a-f]+):", nx)
+            if m2:
+                sites["0x" + m2.group(1)] = m.group(2)
+                break
+    return sites
+
+
+def site_coverage(run, exe):
+    sites = allocation_sites(exe)
+    unreached = sorted(a for a in sites if a not in REACHED)
+    named = []
+    if unreached:
+        q = ["0x%x" % (int(a, 16) - 1) for a in unreached]
+        p = subprocess.run(["addr2line", "-f", "-e", exe] + q, stdout=subprocess.PIPE)
+        out = p.stdout.decode().split("\n")
+        for i, a in enumerate(unreached):
+            fn = out[2 * i] if 2 * i < len(out) else "??"
+            loc = out[2 * i + 1] if 2 * i + 1 < len(out) else "??"
+            loc = re.sub(r"^.*/src/", "src/", loc).split(" ")[0]
+            named.append("%s %s (%s)" % (fn, loc, sites[a]))
+    # harness functions (the shim's own callers) are not library sites
+    named = sorted(set(n for n in named if not HARNESS_FUNCS.match(n) and "/harness/" not in n))
+    run.cov["allocation_sites_in_library"] = len(sites)
+    run.cov["allocation_sites_attempted"] = len([a for a in sites if a in REACHED])
+    run.cov["unreached_allocation_sites"] = named
+    by_file = {}
+    for n in named:
+        f = n.split(" ")[1].split(":")[0]
+        by_file[f] = by_file.get(f, 0) + 1
+    run.cov["unreached_allocation_sites_by_file"] = by_file
+
+
 def enumerate_variant(run, model, exe, variant, scen_list, pairs, stats, env=None):
     rs = Resolver(exe)
     failures = {}       # (scenario, kind, chain) -> list of cases
@@ -257,6 +320,11 @@ def enumerate_variant(run, model, exe, variant, scen_list, pairs, stats, env=Non
                           "case: fa %s 0 0\n%s\n" % (sc, out[0][:2000]), tag="clean_%s_%s" % (variant, sc),
                           no_input=True)
             continue
+        if c1["sites"] != c2["sites"] or c1["res"] != c2["res"] or c1["trace"] != c2["trace"]:
+            # once more before anything is reported (a loaded machine must not be able to raise this)
+            out = run_chunks(exe, ["fa %s 0 0 S" % sc, "fa %s 0 0 S" % sc], env=env, jobs=1)
+            c1, c2 = parse_result(out[0]), parse_result(out[1])
+            run.hist("stability_retries", "clean runs of %s differed once" % sc)
         if c1["sites"] != c2["sites"] or c1["res"] != c2["res"] or c1["trace"] != c2["trace"]:
             run.violation("scenario %s is not deterministic: two clean runs differ" % sc,
                           "run1: %s\nrun2: %s\n" % (out[0][:3000], out[1][:3000]),
@@ -298,6 +366,7 @@ def enumerate_variant(run, model, exe, variant, scen_list, pairs, stats, env=Non
             pouts = run_chunks(exe, plines, env=env)
             lines += plines
             ds += [parse_result(o) for o in pouts]
+        note_reached(ds + [c1], variant)
         vs = verdicts(model, [d["trace"] if d["status"] == "OK" else "-" for d in ds])
         ows = ownerships(model, ds)
         ninj = 0
@@ -313,8 +382,19 @@ def enumerate_variant(run, model, exe, variant, scen_list, pairs, stats, env=Non
             if k2 == 0 and notices and k1 <= N:
                 want = sites[k1 - 1].split(":")
                 got = notices[0]
-                if (want[0], int(want[1]), int(want[2]), want[3]) != \
-                        (got["op"], got["type"], got["size"], got["bt"][0] if got["bt"] else "?"):
+                def same(w, g):
+                    return (w[0], int(w[1]), int(w[2]), w[3]) == \
+                        (g["op"], g["type"], g["size"], g["bt"][0] if g["bt"] else "?")
+                if not same(want, got):
+                    # run the clean run and this case once more, back to back, before reporting
+                    ro = run_chunks(exe, ["fa %s 0 0 S" % sc, ln], env=env, jobs=1)
+                    rc, rd = parse_result(ro[0]), parse_result(ro[1])
+                    rsites = rc["sites"].split(",") if rc["sites"] not in ("-", "?") else []
+                    rn = parse_notice(rd["site"])
+                    run.hist("stability_retries", "attempt of %s compared twice" % sc)
+                    if rn and k1 <= len(rsites):
+                        want, got = rsites[k1 - 1].split(":"), rn[0]
+                if not same(want, got):
                     run.violation("replay not stable: attempt %d of scenario %s is %s in the clean run "
                                   "but %s:%d:%d in the faulted run" % (k1, sc, sites[k1 - 1], got["op"],
                                                                       got["type"], got["size"]),
@@ -573,7 +653,12 @@ def main(run):
         "the scenario catalogue is fixed (harness/h_fault.c); UDP only, no DTLS/TCP/WebSocket/OSCORE"]
     run.prove()
     model = vlib.build_model()
-    exe = vlib.build_driver("h_fault", ["h_fault.c"], "base", extra=["-no-pie"], wraps=WRAPS)
+    # the whole archive is linked in, so that allocation sites of members no scenario touches
+    # (TCP, WebSocket, proxy, ...) show up in the coverage report as unreached
+    lib = vlib.build_lib("base")
+    exe = vlib.build_driver("h_fault", ["h_fault.c"], "base",
+                            extra=["-no-pie", "-Wl,--whole-archive", lib["lib"], "-Wl,--no-whole-archive"],
+                            wraps=WRAPS)
     if getattr(run, "replay", None):
         replay(run, model, exe, run.replay)
         return
@@ -604,6 +689,7 @@ def main(run):
         nv += report(run, fails_a, "asan")
     if os.path.exists(os.path.join(vlib.COQ, "Fault", "PduAtomic.v")):
         pdu_tie(run, model, exe)
+    site_coverage(run, exe)
     run.cov["scenarios"] = stats
     run.cov["exhaustive"] = True
     run.cov["explanation"] = ("exhaustive over k = 1..N per scenario (N measured by the clean run of "
